@@ -2,6 +2,12 @@ import PyYetiVerif.Lemmas.Fixtime
 import PyYetiVerif.Lemmas.Resample
 import PyYetiVerif.Lemmas.Psd
 import PyYetiVerif.Lemmas.PsdArea
+import PyYetiVerif.Lemmas.PsdAreaGlue
+import PyYetiVerif.Lemmas.PsdEdges
+import PyYetiVerif.Lemmas.PsdOct
+import PyYetiVerif.Lemmas.ResampleConv
+import PyYetiVerif.Lemmas.FixtimeTnew
+import PyYetiVerif.Lemmas.FixtimeDrops
 /-!
 # C19 — PSD and signal utilities conserve what they claim to conserve
 
@@ -25,7 +31,7 @@ Reading of the property:
   a relative `|s+1|·ln(f2/f1) ≤ 1e-8·ln(f2/f1)` of it (`area_segment_tolerance_band_inexact`).
 -/
 namespace PyYetiVerif.C19
-open PyYetiVerif.Fixtime PyYetiVerif.Resample PyYetiVerif.Psd
+open PyYetiVerif.Fixtime PyYetiVerif.Resample PyYetiVerif.Psd PyYetiVerif.PsdOct
 
 /-! ## fixtime: nearest / previous sample -/
 section order
@@ -256,7 +262,7 @@ theorem rescale_telescopes (E P : List α) (g0 : α) (rest : List α) (hs : E.Pa
   have key : (rescaleCore E.dropLast E.tail P (g0 :: rest).dropLast rest false).msv =
       areaUpTo E P ((g0 :: rest).getLast (by simp)) - areaUpTo E P g0 := by
     show Psd.sumL (List.zipWith (· - ·) (rest.map (npInterp _ _)) ((g0 :: rest).dropLast.map (npInterp _ _))) = _
-    rw [hf, sumL_eq_sum, sum_diff_telescope]
+    rw [hf, Psd.sumL_eq_sum, sum_diff_telescope]
   refine ⟨key, ?_⟩
   intro h1 h2
   rw [key, areaUpTo_of_le E P g0 h1, areaUpTo_of_ge E P _ h2 (hs.imp le_of_lt)]
@@ -343,6 +349,196 @@ theorem interp_at_breakpoints (xs ys : List α) (hs : xs.Pairwise (· < ·)) (hn
 
 end interp
 
+/-! ## area = integral of the whole interpolant -/
+
+/-- on every segment `[f_k, f_{k+1}]` of a specification, `psd.interp(spec, x, linear=False)` IS the
+constant-dB/octave law `p_k (x/f_k)^{s_k}` with the slope `s_k = log(p_{k+1}/p_k)/log(f_{k+1}/f_k)`
+the code of `psd.area` computes: the interpolant is a piecewise power law -/
+theorem interpolant_is_piecewise_power_law (spec : List (ℝ × ℝ))
+    (hf : (spec.map (·.1)).Pairwise (· < ·)) (hpos : ∀ r ∈ spec, 0 < r.1 ∧ 0 < r.2)
+    (k : Nat) (hk : k + 1 < spec.length) (x : ℝ) (h1 : spec[k].1 ≤ x) (h2 : x ≤ spec[k + 1].1) :
+    interpLog spec x = spec[k].2 * (x / spec[k].1) ^ segSlope spec[k] spec[k + 1] :=
+  interpLog_seg spec hf hpos k hk x h1 h2
+
+/-- **area_is_integral**: `psd.area(spec)` (the left-to-right sum of the closed-form segment
+areas) equals the interval integral of the log-log interpolant `psd.interp(spec, ·)` over the whole
+range `[f_0, f_n]` — for any number of break points, strictly increasing positive frequencies,
+positive PSD values and segment slopes that are exactly `-1` or at least `1e-8` away from it (inside
+that band the code's value is not the integral: `area_segment_tolerance_band_inexact`) -/
+theorem area_is_integral_of_interpolant (spec : List (ℝ × ℝ))
+    (hf : (spec.map (·.1)).Pairwise (· < ·)) (hpos : ∀ r ∈ spec, 0 < r.1 ∧ 0 < r.2)
+    (hn : 0 < spec.length)
+    (hs : ∀ (k : Nat) (hk : k + 1 < spec.length),
+      segSlope spec[k] spec[k + 1] = -1 ∨ 1e-8 ≤ |segSlope spec[k] spec[k + 1] + 1|) :
+    ∫ x in spec[0].1..spec[spec.length - 1].1, interpLog spec x = area spec :=
+  area_eq_integral_interpLog spec hf hpos hn hs
+
+/-! ## resample: retained samples, constants, sample times -/
+
+/-- **upsample_keeps_samples**, through the whole modelled pipeline (gcd reduction, mean removal,
+zero stuffing, padding, `lfilter`, lag removal, decimation, mean added back): when `q ≤ p` and the
+window's centre value is `1` (true of the Kaiser window), output sample `i·p'` is input sample
+`i·q'` (`p' = p/gcd`, `q' = q/gcd`; for an integer factor `q = 1`: output `i·p` is input `i`) -/
+theorem upsample_keeps_samples_full (data : List ℝ) (p q pts : Nat) (w : List ℝ) (hq : 1 ≤ q)
+    (hqp : q ≤ p) (hw : w.length = 2 * pts * (p / Nat.gcd p q) + 1)
+    (hc : w.getD (pts * (p / Nat.gcd p q)) 0 = 1)
+    (i : Nat) (hi : i * (q / Nat.gcd p q) < data.length) :
+    (resample data p q pts w)[i * (p / Nat.gcd p q)]? = data[i * (q / Nat.gcd p q)]? :=
+  resample_keeps data p q pts w hq hqp hw hc i hi
+
+/-- **constants_reproduced**: a constant signal goes through unchanged, for every `p/q`, window
+and `pts` — the routine filters `data - mean(data)`, identically zero here, and adds the mean back;
+no property of the taps is used -/
+theorem constants_reproduced (c : ℝ) (n p q pts : Nat) (w : List ℝ) (hn : 1 ≤ n) (hp : 1 ≤ p)
+    (hq : 1 ≤ q) :
+    resample (List.replicate n c) p q pts w = List.replicate (resampleLen n p q) c :=
+  resample_const c n p q pts w hn hp hq
+
+/-- output sample `j` sits at input time `t0 + j·dt·q/p` (`resample_tnew`); in particular the
+retained sample `i·p'` sits at the time of input sample `i·q'`, `t0 + (i·q')·dt` -/
+theorem resample_kept_sample_times (t0 t1 : ℚ) (p q i : Nat) (hp : 1 ≤ p) (hq : 1 ≤ q) :
+    tnewAt t0 t1 p q (i * (p / Nat.gcd p q)) = t0 + ((i * (q / Nat.gcd p q) : Nat) : ℚ) * (t1 - t0) := by
+  rw [resample_tnew t0 t1 p q _ hp hq]
+  have hg : 0 < Nat.gcd p q := Nat.gcd_pos_of_pos_right p (by omega)
+  obtain ⟨p', hp'⟩ := Nat.gcd_dvd_left p q
+  obtain ⟨q', hq'⟩ := Nat.gcd_dvd_right p q
+  have hpd : p / Nat.gcd p q = p' := Nat.div_eq_of_eq_mul_right hg hp'
+  have hqd : q / Nat.gcd p q = q' := Nat.div_eq_of_eq_mul_right hg hq'
+  rw [hpd, hqd]
+  have hp'0 : (p' : ℚ) ≠ 0 := by
+    have : p' ≠ 0 := by rintro rfl; rw [Nat.mul_zero] at hp'; omega
+    exact_mod_cast this
+  have hg0 : ((Nat.gcd p q : Nat) : ℚ) ≠ 0 := by exact_mod_cast (by omega : Nat.gcd p q ≠ 0)
+  have e1 : (p : ℚ) = (Nat.gcd p q : ℚ) * p' := by exact_mod_cast hp'
+  have e2 : (q : ℚ) = (Nat.gcd p q : ℚ) * q' := by exact_mod_cast hq'
+  rw [e1, e2]
+  push_cast
+  field_simp
+
+/-! ## fixtime: the uniform time base -/
+
+/-- Python's `round` as modelled (`L = int(round(span·sr)) + 1`): an integer within `1/2` of the
+argument, the even one at a tie -/
+theorem tnew_round_half_even (x : ℚ) :
+    |((roundHalfEven x : ℤ) : ℚ) - x| ≤ 1 / 2 ∧
+      (x - ((x.floor : ℤ) : ℚ) = 1 / 2 → roundHalfEven x % 2 = 0) :=
+  ⟨roundHalfEven_spec x, roundHalfEven_tie x⟩
+
+/-- **tnew_uniform**: whatever `_mk_initial_tnew` returns (numeric `sr > 0`, any alignment branch)
+is an exact arithmetic progression with step `1/sr`: `tnew[k] = told[0] + delt + k/sr`, of length
+`L = round((told[-1] - told[0])·sr) + 1 ≥ 1`; before the alignment shift `delt` it starts at
+`told[0]` and ends within half a step of `told[-1]` (the documented "spans the range of time"
+rule); without alignment (too many turning points) `delt = 0` -/
+theorem tnew_uniform (told : List ℚ) (sr : ℚ) (hsr : 0 < sr) (r : Tnew)
+    (h : mkInitialTnew told sr = some r) :
+    ∃ t0 tl, told.head? = some t0 ∧ told.getLast? = some tl ∧
+      r.tnew.length = gridLen t0 tl sr ∧
+      (∀ (k : Nat) (hk : k < r.tnew.length), r.tnew[k] = t0 + r.delt + (k : ℚ) / sr) ∧
+      (t0 ≤ tl → 1 ≤ gridLen t0 tl sr ∧
+        |t0 + ((gridLen t0 tl sr - 1 : Nat) : ℚ) / sr - tl| ≤ 1 / (2 * sr)) ∧
+      (r.align = false → r.delt = 0) := by
+  obtain ⟨t0, tl, h0, hl, ht, _, hd⟩ := mkInitialTnew_eq told sr r h
+  refine ⟨t0, tl, h0, hl, ?_, ?_, fun hle => grid_end_rule t0 tl sr hsr hle, hd⟩
+  · rw [ht, List.length_map, length_grid0]
+  · intro k hk
+    simp only [ht, List.getElem_map]
+    rw [getElem_grid0]
+    ring
+
+/-! ## fixtime: which samples survive the cleaning -/
+
+/-- **index maps compose** (`_del_drops` → `_del_outtimes` → `_get_alldrops`, `deldrops` and
+`delouttimes` on): the outlier times are found in the drop-out-FILTERED time vector but reported as
+positions in the FULL record (`outtimes = keep[pv]`): each is in range and is not a drop-out; and
+the samples `_get_alldrops` keeps by its full-record mask (`~alldrops`) are exactly the filtered
+samples with the flagged ones removed (`keep[~pv]`) -/
+theorem alldrops_indices_are_full_record_positions (told : List ℚ) (drop : List Bool)
+    (hlen : drop.length = told.length) :
+    (∀ i ∈ (delOuttimes told (nonzeroIdx (drop.map not)) true).2,
+        i < told.length ∧ drop[i]? = some false) ∧
+      nonzeroIdx ((alldropsMask told.length (some (nonzeroIdx drop))
+          (delOuttimes told (nonzeroIdx (drop.map not)) true).2 true).map not) =
+        (delOuttimes told (nonzeroIdx (drop.map not)) true).1 :=
+  drops_compose told drop hlen
+
+/-! ## rescale: band edges -/
+
+/-- **edges_partition**, linear scale with exactly equal steps `d` (the input-scale test
+`np.all(Df == Df[0])`): consecutive bands share an edge, each centre is the middle of its band,
+each band has width `d` -/
+theorem edges_partition_linear {α : Type} [Field α] [LinearOrder α] [IsStrictOrderedRing α]
+    (c : List α) (d : α) (hd : ∀ x ∈ diffs c, x = d) :
+    (edgesLin c d).1.length = c.length ∧ (edgesLin c d).2.length = c.length ∧
+    (∀ (i : Nat) (h : i + 1 < c.length),
+      (edgesLin c d).2[i]'(by simp [edgesLin]; omega) = (edgesLin c d).1[i + 1]'(by simp [edgesLin]; omega)) ∧
+    (∀ (i : Nat) (h : i < c.length),
+      ((edgesLin c d).1[i]'(by simp [edgesLin]; omega) + (edgesLin c d).2[i]'(by simp [edgesLin]; omega)) / 2 = c[i] ∧
+      (edgesLin c d).2[i]'(by simp [edgesLin]; omega) - (edgesLin c d).1[i]'(by simp [edgesLin]; omega) = d) :=
+  edgesLin_partition c d hd
+
+/-- … linear only within `_get_fl_fu`'s tolerance `|Df/Df[0] - 1| < 1e-12`: the bands
+`c ∓ Df[0]/2` do NOT share edges exactly; the gap/overlap between bands `i` and `i+1` is
+`Df[0] - Df[i]`, below `1e-12·|Df[0]|` -/
+theorem edges_partition_linear_tolerance (c : List ℝ) (d0 : ℝ) (r : List ℝ)
+    (hd : diffs c = d0 :: r) (ht : isLinTol c = true) (i : Nat) (h : i + 1 < c.length) :
+    (edgesLin c d0).2[i]'(by simp [edgesLin]; omega) - (edgesLin c d0).1[i + 1]'(by simp [edgesLin]; omega)
+        = d0 - (c[i + 1] - c[i]) ∧
+      |(edgesLin c d0).2[i]'(by simp [edgesLin]; omega) - (edgesLin c d0).1[i + 1]'(by simp [edgesLin]; omega)|
+        < 1e-12 * |d0| :=
+  edgesLin_tol c d0 r hd ht i h
+
+/-- … logarithmic scale (every scale that fails the linear test): consecutive bands share an
+edge, the geometric mean of the two centres; each END centre is the geometric mean of its own band
+edges (end bands mirrored in log space) -/
+theorem edges_partition_log (c : List ℝ) (hn : 2 ≤ c.length) (hpos : ∀ x ∈ c, 0 < x) :
+    ∃ (h1 : (edgesLog c).1.length = c.length) (h2 : (edgesLog c).2.length = c.length),
+      (∀ (i : Nat) (h : i + 1 < c.length),
+        (edgesLog c).2[i] = (edgesLog c).1[i + 1] ∧ (edgesLog c).2[i] = Real.sqrt (c[i] * c[i + 1])) ∧
+      (edgesLog c).1[0] * (edgesLog c).2[0] = c[0] ^ 2 ∧
+      (edgesLog c).1[c.length - 1] * (edgesLog c).2[c.length - 1] = c[c.length - 1] ^ 2 :=
+  edgesLog_partition c hn hpos
+
+/-- which rule applies: output centres (`_get_fl_fu`) are linear iff all steps are within `1e-12`
+(relative) of the first; input centres are linear if all steps are EXACTLY equal, else go through
+the same `_get_fl_fu` -/
+theorem edges_dispatch (c : List ℝ) (d0 : ℝ) (r : List ℝ) (hd : diffs c = d0 :: r) :
+    getFlFu c = (if isLinTol c then edgesLin c d0 else edgesLog c) ∧
+      inEdges c = (if isLinExact c then edgesLin c d0 else getFlFu c) ∧
+      (isLinExact c = true ↔ ∀ d ∈ diffs c, d = d0) :=
+  ⟨getFlFu_eq c d0 r hd, inEdges_eq c d0 r hd, isLinExact_iff c d0 r hd⟩
+
+/-- `extendends=True`: the first output band's lower edge is raised to the lower EDGE of the first
+input band (not its centre) when it lies below it, the last output band's upper edge is lowered to
+the upper edge of the last input band when it lies above it; no other edge moves -/
+theorem edges_extendends_rule {α : Type} [Field α] [LinearOrder α] [IsStrictOrderedRing α]
+    (FLin FUin FL FU : List α) (a b u v : α) (h1 : FL.head? = some a)
+    (h2 : FLin.head? = some b) (h3 : FU.getLast? = some u) (h4 : FUin.getLast? = some v) :
+    (clipEnds FLin FUin FL FU).1 = max a b :: FL.tail ∧
+      (clipEnds FLin FUin FL FU).2 = FU.dropLast ++ [min u v] :=
+  clipEnds_spec FLin FUin FL FU a b u v h1 h2 h3 h4
+
+/-! ## get_freq_oct: octave bands -/
+
+/-- whatever `get_freq_oct` returns (any `trim`, `exact` or not, any positive anchor, `n > 0`):
+positive centres, `FL = F/factor`, `FU = F·factor`, `FU/FL = 2^(1/n)` (`10^(3/(10n))` for the
+approximate scale), each centre the geometric mean of its band edges, consecutive bands share an
+edge -/
+theorem freq_oct_bands (n fr0 e : ℝ) (hn : 0 < n) (exact : Bool) (trim : Trim)
+    (anchor : Option ℝ) (ha : ∀ a, anchor = some a → 0 < a)
+    (F FL FU : List ℝ) (h : getFreqOct n fr0 e exact trim anchor = some (F, FL, FU)) :
+    ∃ (h1 : FL.length = F.length) (h2 : FU.length = F.length),
+      (∀ (i : Nat) (hi : i < F.length),
+        0 < F[i] ∧ FL[i] = F[i] / octFactor n exact ∧ FU[i] = F[i] * octFactor n exact ∧
+        FU[i] / FL[i] = octRatio n exact ∧ F[i] ^ 2 = FL[i] * FU[i]) ∧
+      (∀ (i : Nat) (hi : i + 1 < F.length), FU[i] = FL[i + 1]) :=
+  getFreqOct_bands n fr0 e hn exact trim anchor ha F FL FU h
+
+/-- the two ratios, spelled out -/
+theorem freq_oct_ratio (n : ℝ) :
+    octRatio n true = (2 : ℝ) ^ (1 / n) ∧ octFactor n true = (2 : ℝ) ^ (1 / (2 * n)) ∧
+      octRatio n false = (10 : ℝ) ^ (3 / (10 * n)) ∧ octFactor n false = (10 : ℝ) ^ (3 / (20 * n)) :=
+  ⟨rfl, rfl, rfl, rfl⟩
+
 /-! ## non-vacuity -/
 
 example : closest ([0, 1, 5, 6] : List ℚ) (5 / 2) = some 1 ∧
@@ -355,5 +551,67 @@ example : resampleLen 7 4 6 = 5 ∧ resampleLen 530 1 5 = 106 := by
 /-- the documentation example of `rescale`: `0.525 = 1·(2.5 − (−0.125))/5` -/
 example : bandArea ([-1/8, 1/8, 3/8] : List ℚ) [1, 1] (-5/2) (1/4) = 3/8 := by
   norm_num [bandArea]
+
+/-- `area_is_integral_of_interpolant`: a three-point specification (slopes `1` and `-1`) meets
+all hypotheses -/
+example : ∃ spec : List (ℝ × ℝ), (spec.map (·.1)).Pairwise (· < ·) ∧
+    (∀ r ∈ spec, 0 < r.1 ∧ 0 < r.2) ∧ 0 < spec.length ∧
+    ∀ (k : Nat) (hk : k + 1 < spec.length),
+      segSlope spec[k] spec[k + 1] = -1 ∨ 1e-8 ≤ |segSlope spec[k] spec[k + 1] + 1| := by
+  refine ⟨[(1, 1), (2, 2), (4, 1)], by norm_num, by simp, by simp, ?_⟩
+  intro k hk
+  have hl : Real.log 2 ≠ 0 := ne_of_gt (Real.log_pos (by norm_num))
+  match k, hk with
+  | 0, _ =>
+      right
+      have : segSlope ((1, 1) : ℝ × ℝ) (2, 2) = 1 := by
+        simp [segSlope, hl]
+      simp only [List.getElem_cons_zero, List.getElem_cons_succ, this]
+      norm_num
+  | 1, _ =>
+      left
+      show segSlope ((2, 2) : ℝ × ℝ) (4, 1) = -1
+      unfold segSlope
+      have e1 : ((1 : ℝ) / 2) = 2⁻¹ := by norm_num
+      have e2 : ((4 : ℝ) / 2) = 2 := by norm_num
+      simp only [e1, e2, Real.log_inv]
+      field_simp
+
+/-- `upsample_keeps_samples_full`: a window of the required length with centre value `1` -/
+example : ([0, 0, 1, 0, 0] : List ℝ).length = 2 * 1 * (2 / Nat.gcd 2 1) + 1 ∧
+    ([0, 0, 1, 0, 0] : List ℝ).getD (1 * (2 / Nat.gcd 2 1)) 0 = 1 := by
+  constructor <;> simp
+
+/-- `tnew_uniform`: the documentation example `t = [0, 1, 5, 6]`, `sr = 1` -/
+example : (mkInitialTnew [0, 1, 5, 6] 1).map (fun r => (r.tnew, r.tp, r.align, r.delt, r.mismatch)) =
+    some ([0, 1, 2, 3, 4, 5, 6], [0, 1, 2, 3], true, 0, false) := by decide +kernel
+
+/-- `alldrops_indices_are_full_record_positions`: a drop-out at position 2 and a stray time at
+position 12: the stray time is reported as full-record position 12 (it is entry 11 of the filtered
+vector) and positions 2 and 12 are removed -/
+example :
+    (fun r : Drops => (r.dropouts, r.outtimes, r.alldrops, r.keep))
+      (fixtimeDrops [0, 1, 2, 3, 4, 5, 6, 7, 8, 9, 10, 11, 1000]
+        [false, false, true, false, false, false, false, false, false, false, false, false, false]
+        true true none) =
+      (some [2], [12], [2, 12], [0, 1, 3, 4, 5, 6, 7, 8, 9, 10, 11]) := by decide +kernel
+
+/-- `edges_partition_linear_tolerance` / `edges_partition_log`: inhabited hypotheses -/
+example : isLinTol ([1, 2, 3] : List ℝ) = true ∧ diffs ([1, 2, 3] : List ℝ) = [1, 1] := by
+  constructor
+  · norm_num [isLinTol, diffs, absv]
+  · norm_num [diffs]
+
+/-- `freq_oct_bands`: the exact full-octave scale asked for `[1000, 1000]` is the one band around
+`1000` -/
+example : getFreqOct (1 : ℝ) 1000 1000 true Trim.outside none =
+    some ([1000], [1000 / (2 : ℝ) ^ ((1 : ℝ) / (2 * 1))], [1000 * (2 : ℝ) ^ ((1 : ℝ) / (2 * 1))]) := by
+  have hf : (1 : ℝ) ≤ (2 : ℝ) ^ (2⁻¹ : ℝ) := Real.one_le_rpow (by norm_num) (by norm_num)
+  have h1 : (1000 : ℝ) / (2 : ℝ) ^ (2⁻¹ : ℝ) ≤ 1000 := by
+    rw [div_le_iff₀ (by linarith)]; nlinarith
+  unfold getFreqOct octScale arange trimIdx
+  simp [OctOps.log2, OctOps.floor, OctOps.ceilNat, OctOps.pow]
+  rw [if_pos h1, if_pos hf]
+  simp
 
 end PyYetiVerif.C19
